@@ -27,6 +27,19 @@ KEYWORD_LABELS = ["item [2]:", "intervals [1]:", "points [3]:", "\"IntervalTier\
 NAMES = ["words", "phones", "t 1", "é", "n\"q", "x=y"]
 KEYWORD_NAMES = ["item [1]", "IntervalTier", "intervals [1]:"]
 
+# composed labels: quotes, line breaks and blanks in every arrangement (a quote ending a non-final line, runs of quotes,
+# blank lines, ...) -- none of the atoms can form one of the readers' keywords
+ATOMS = ['"', '\n', ' ', 'a', 'b', '""', '"\n', '\n"', '=', 'é', '\t', ' "', '" ', '"\n"', '\n\n', 'c d', '0', '.5']
+
+
+def rand_label(rnd):
+    return "".join(rnd.choice(ATOMS) for _ in range(rnd.randint(1, 6)))
+
+
+def pick_label(rnd, labels):
+    return (rand_label(rnd) if rnd.random() < 0.3 else rnd.choice(labels)).strip()
+
+
 TMP = None
 
 
@@ -85,7 +98,7 @@ def gen_tg(rnd, domain="full", labels=None, names=None, min_len=1e-6, ntiers=Non
             j = 0
             while j + 1 < len(ts):
                 if ts[j + 1] - ts[j] >= min_len:
-                    es.append([ts[j], ts[j + 1], rnd.choice(labels).strip()])
+                    es.append([ts[j], ts[j + 1], pick_label(rnd, labels)])
                 j += 1 if rnd.random() < 0.4 else 2
             # keep intervals disjoint
             clean = []
@@ -95,7 +108,7 @@ def gen_tg(rnd, domain="full", labels=None, names=None, min_len=1e-6, ntiers=Non
             tiers.append({"k": "I", "name": names[i], "es": clean, "lo": 0.0, "hi": 0.0})
         else:
             ts = gen_time_pool(rnd, k, domain)
-            tiers.append({"k": "P", "name": names[i], "es": [[t, rnd.choice(labels).strip()] for t in ts], "lo": 0.0, "hi": 0.0})
+            tiers.append({"k": "P", "name": names[i], "es": [[t, pick_label(rnd, labels)] for t in ts], "lo": 0.0, "hi": 0.0})
     top = max([x for t in tiers for e in t["es"] for x in e[:-1]] + [1.0])
     hi = rnd.choice([top, top + 1.0, float(math.ceil(top)) + 2, top * 1.5])
     lo = 0.0
